@@ -217,7 +217,9 @@ def run_check(pid, tier, seed, replay=None, jobs=None):
     if level == "model_checking" and not cov.get("states"):
         level = "exploration"
     if not replay:
-        evidence.write(pid, tier, seed, level, cov, wall, nviol, getattr(mod, "ASSUMPTIONS", []))
+        # runs against a scratch copy (VERIF_REPO: seeded-change self-tests) must not overwrite the evidence of /repo
+        outdir = None if os.path.realpath(env.REPO) == "/repo" else os.path.join(WORK, "evidence")
+        evidence.write(pid, tier, seed, level, cov, wall, nviol, getattr(mod, "ASSUMPTIONS", []), outdir=outdir)
     print("%s tier=%s seed=%s scenarios=%d evaluations=%d nontrivial=%d models=%d states=%s wall=%.1fs violations=%d known=%d" % (
         pid, tier, seed, len(results), cov["evaluations"], cov["distinct_nontrivial"], len(mresults), cov.get("states", 0),
         wall, nviol, len(known)))
